@@ -319,6 +319,14 @@ def space(tier, parts=('a', 'b', 'runs', 'nonroot')):
             info['b-inputs:%s' % sname] = '%d x %d input edits x %d configs' % (len(iidx), len(iidx), len(cfgs))
             for i in iidx:
                 shards.append(('b', sname, 'git', cfgs, None, (i,), iidx))
+    if 'b' in parts and tier == 'quick':
+        # the renderers of source conflicts: source edits x source edits under the default strategy with diff3 only and with no external helper at all
+        seed, d1 = depth1('S45')
+        sidx = tuple(i for i, (l, t, n) in enumerate(d1) if t['kind'] == 'source')
+        info['b-renderers:S45'] = '%d x %d source edits x {diff3, none}' % (len(sidx), len(sidx))
+        for ts in ('diff3', 'none'):
+            for i in sidx:
+                shards.append(('b', 'S45', ts, (KEY_CONFIGS[0],), None, (i,), sidx))
     if 'runs' in parts:
         # two edits on one side against one edit on the other, over the compact conflicting alphabet (both role assignments)
         for sname in (('S45#compact2',) if tier == 'quick' else ('S45#compact2', 'S44#compact2')):
